@@ -181,6 +181,9 @@ def method(self, a: AV, name: str, args, kwargs, e: ast.Call, env, f: FuncInfo) 
                         out = str_concat(out, Str.lit(sep))
                     out = str_concat(out, x)
                 return out
+            if sep is not None and sep != "":
+                # unknown number of pieces: one piece, or pieces separated by the literal separator
+                return Str(frozenset({(HOLE,), (HOLE, sep, HOLE)}))
             return Str.hole()
         if name in ("startswith", "endswith", "isdigit", "isupper", "islower"):
             return Bool()
